@@ -40,6 +40,7 @@ let parse_event (tok : string) : gevent option =
      | 'i' -> Some (GEOp (OTransIf (st_of_char rest.[1], st_of_char rest.[2])))
      | _ -> failwith "OP")
   | "G" -> (match split ',' rest with f :: c :: b :: _ -> Some (GESnap (nat f, nat c, nat b)) | _ -> failwith "G")
+  | "Q" -> (match split ',' rest with f :: c :: b :: _ -> Some (GEQuiet (nat f, nat c, nat b)) | _ -> failwith "Q")
   | _ -> failwith ("event " ^ tok)
 
 (* the property's predicates on what the implementation showed (no model involved) *)
@@ -54,7 +55,9 @@ let impl_predicates (name : string) (toks : string list) : int * int * int =
       | "CA" -> Hashtbl.replace cancelled rest ()
       | "OP" -> inflight := true
       | "OR" -> inflight := false
-      | "G" ->
+      | "G" | "Q" ->
+        (* G: every goroutine blocked, timers (5 s broadcast timeout, 100 ms forwarder grace) may be pending;
+           Q: taken after a pause longer than the grace with no machine call in flight: nothing may be pending *)
         (match List.map int_of_string (split ',' rest) with
          | [f; c; b; u] ->
            incr snaps;
@@ -63,12 +66,13 @@ let impl_predicates (name : string) (toks : string list) : int * int * int =
            if u > 0 then fail "unknown-goroutine" tok d;
            if f < opn then fail "forwarder-missing" tok d;
            if c < opn then fail "cleanup-missing" tok d;
-           if (not !inflight) && b = 0 then begin
+           if tag_of tok = "Q" then begin
              incr quiet_snaps;
              if f > opn then fail "forwarder-leak" tok d;
              if c > opn then fail "cleanup-leak" tok d
            end;
-           if (not !inflight) && b > 0 then fail "sender-leak" tok d
+           if (not !inflight) && b > 0 then fail "sender-leak" tok d;
+           if (not !inflight) && b = 0 && c > opn then fail "cleanup-leak" tok d
          | _ -> ())
       | _ -> ()) toks;
   (!snaps, !quiet_snaps, !maxsubs)
